@@ -128,3 +128,60 @@ Section Zip.
       apply IH. lia.
   Qed.
 End Zip.
+
+(* ---- slice::chunks on a list whose length is a multiple of the chunk size: as many full chunks as the quotient *)
+From Verif Require Import Model.Stark.
+Section Chunks.
+  Context {F : Type}.
+
+  Lemma chunks_fuel_full : forall (nch k fuel : nat) (l : list F),
+    k <> 0 -> length l = k * nch -> nch <= fuel ->
+    length (chunks_fuel fuel k l) = nch /\
+    forall ck, In ck (chunks_fuel fuel k l) -> length ck = k.
+  Proof.
+    induction nch as [|nch IH]; intros k fuel l Hk Hlen Hfuel.
+    - rewrite Nat.mul_0_r in Hlen. destruct l; [|discriminate].
+      destruct fuel; simpl; split; auto; intros ck [].
+    - destruct fuel as [|fuel]; [lia|].
+      destruct l as [|x l'] eqn:El.
+      + simpl in Hlen. destruct k; [congruence|]. simpl in Hlen. lia.
+      + cbn [chunks_fuel]. rewrite <- El in *.
+        assert (Hk_le : k <= length l) by (rewrite Hlen; nia).
+        destruct (IH k fuel (skipn k l) Hk) as [Hn Hall].
+        * rewrite skipn_length, Hlen. nia.
+        * lia.
+        * split.
+          -- simpl. rewrite Hn. reflexivity.
+          -- intros ck [E|Hin]; [subst ck; rewrite firstn_length; lia | apply Hall; exact Hin].
+  Qed.
+
+  Lemma chunks_full : forall (nch k : nat) (l : list F) cks,
+    k <> 0 -> length l = k * nch -> chunks k l = Some cks ->
+    length cks = nch /\ forall ck, In ck cks -> length ck = k.
+  Proof.
+    intros nch k l cks Hk Hlen E. unfold chunks in E. destruct k as [|k']; [congruence|].
+    injection E as <-. apply chunks_fuel_full; [lia|exact Hlen|].
+    rewrite Hlen. nia.
+  Qed.
+End Chunks.
+
+From Verif Require Import Proofs.Stark Base.Poly.
+Lemma every_identity_checked :
+  forall {F : Type} {FO : FieldOps F} {FL : FieldLaws F} (log_n qdf nch : nat) (zeta : F) (van q : list F),
+    qdf <> 0 -> length q = qdf * nch -> length van = nch ->
+    quotient_check log_n qdf zeta van (Some q) = Some true ->
+    exists cks, chunks qdf q = Some cks /\ length cks = nch /\
+      forall j, j < nch ->
+        exists ck v, nth_error cks j = Some ck /\ length ck = qdf /\ nth_error van j = Some v /\
+          v = ((fpow zeta (2 ^ log_n) - 1) * peval ck (fpow zeta (2 ^ log_n)))%F.
+Proof.
+  intros F FO FL log_n qdf nch zeta van q Hq Hlen Hvan E.
+  destruct (quotient_check_true log_n qdf zeta van q E) as [cks [Ec Hall]].
+  destruct (chunks_full nch qdf q cks Hq Hlen Ec) as [Hn Hk].
+  exists cks. split; [exact Ec|]. split; [exact Hn|].
+  intros j Hj.
+  destruct (nth_error cks j) as [ck|] eqn:Ej.
+  - destruct (Hall j ck Ej) as [v [Hv Hid]].
+    exists ck, v. repeat split; try assumption. apply Hk. eapply nth_error_In; exact Ej.
+  - apply nth_error_None in Ej. lia.
+Qed.
